@@ -220,6 +220,16 @@ class FnAnalysis:
                 out.add((r[0], klimit(r[1] + ('[*]',))))
         return out
 
+    def iter_elems(self, refs):
+        """What iterating the value yields: the keys of a dict (immutable), the elements of anything else."""
+        out = set()
+        for r in refs:
+            if r[0] not in ('TUPLE', 'Imm') and self.H.kind_of(r, self).startswith('dict'):
+                out.add(IMM)
+            else:
+                out |= self.elem_of({r})
+        return out
+
     def field(self, refs, attr):
         out = set()
         for r in refs:
@@ -350,7 +360,7 @@ class FnAnalysis:
             return self.fresh(e, 'dict', el)
         if isinstance(e, (ast.ListComp, ast.GeneratorExp, ast.SetComp, ast.DictComp)):
             for g in e.generators:
-                self.bind(g.target, self.elem_of(self.ev(g.iter)))
+                self.bind(g.target, self.iter_elems(self.ev(g.iter)))
                 for c in g.ifs:
                     self.ev(c)
             if isinstance(e, ast.DictComp):
@@ -668,6 +678,20 @@ class FnAnalysis:
     def block(self, stmts):
         for st in stmts:
             self.stmt(st)
+            if self._ends(st):
+                break       # what follows is unreachable under the specialised flags
+
+    def _ends(self, st):
+        if isinstance(st, (ast.Return, ast.Raise)):
+            return True
+        if isinstance(st, ast.If):
+            v = self.decide(st.test)
+            if v is True:
+                return bool(st.body) and self._ends(st.body[-1])
+            if v is False:
+                return bool(st.orelse) and self._ends(st.orelse[-1])
+            return bool(st.body) and bool(st.orelse) and self._ends(st.body[-1]) and self._ends(st.orelse[-1])
+        return False
 
     def _copy_env(self):
         return {k: set(v) for k, v in self.env.items()}
@@ -760,7 +784,7 @@ class FnAnalysis:
                     self.env = self._merge(a, self.env)
         elif isinstance(st, ast.For):
             it = self.ev(st.iter)
-            self._loop(st.body, lambda: self.bind(st.target, self.elem_of(it)))
+            self._loop(st.body, lambda: self.bind(st.target, self.iter_elems(it)))
             self.block(st.orelse)
         elif isinstance(st, ast.While):
             self.ev(st.test)
